@@ -5,6 +5,8 @@
 import Bita.Model.Readers
 import Bita.Spec.Runs
 import Bita.Proofs.Http
+import Bita.Proofs.CloneWire
+import Bita.Model.Compress
 
 namespace Bita.Props.C07
 open Bita Bita.Spec
@@ -50,6 +52,45 @@ example :
     let chunks : List ChunkOffset := [⟨3, 4⟩, ⟨7, 2⟩, ⟨20, 5⟩]
     (httpReadChunks (honest data) 0 [.full [1, 2], .full []] chunks).reqs = [(3, 6), (20, 5)] ∧
     maximalRuns chunks = [[⟨3, 4⟩, ⟨7, 2⟩], [⟨20, 5⟩]] := by
+  decide +kernel
+
+/-- **C07 for a whole clone** (C06 ∘ C07).  The archive is served by an honest server and no
+transfer fails (every response complete, in any fragmentation); any prior output, in place or
+not, any seeds.  Everything a successful clone puts on the wire, in order: one request for the
+pre-header, one for the rest of the header, and then exactly one request per maximal run of
+adjacent *missing* chunks (`Proofs.missingRanges`: the descriptors, in descriptor order, whose key
+neither the scan of the prior output nor the scan of any seed found) - or a collision of the
+truncated strong hash with a genuine source chunk is exhibited. -/
+theorem clone_over_http_requests_runs_of_missing_chunks (H : Bytes → Bytes) (hH : ∀ x, (H x).length = 64)
+    (decomp : Nat → Bytes → Nat → Option Bytes) (features : List Nat)
+    (archive : Bytes) (e : HttpEnv) (opts : CloneOpts) (prior : Bytes) (seeds : List Bytes)
+    (a : Archive) (src : Bytes) (cks : List Bytes)
+    (hserve : e.serve = honestServe archive)
+    (hat : ∀ off size, ∃ frags rest, e.atScript off size = Resp.full frags :: rest)
+    (hinit : tryInit H features (honestReadAt archive) = .ok a) (hd : Describes H a src cks)
+    (hs : Stored H decomp a archive)
+    (hfull : ∀ r ∈ e.chunksScript, ∃ frags, r = Resp.full frags)
+    (hlen : a.chunks.length ≤ e.chunksScript.length) :
+    let r := Clone.run H decomp features e.readAt e.readChunks opts prior seeds
+    r.result = .ok →
+      r.requests.flatMap e.wire =
+        [(0, Gen.preHeaderSize), (Gen.preHeaderSize, a.headerSize - Gen.preHeaderSize)] ++
+          (maximalRuns (Proofs.missingRanges H a opts prior seeds)).map runRequest ∨
+      Collision H a.hashLength cks :=
+  Proofs.clone_http_wire H hH decomp features archive e opts prior seeds a src cks hserve hat hinit hd hs hfull hlen
+
+/-! Non-vacuity: a five-chunk archive cloned over HTTP with a seed that holds the second and the
+fourth chunk: three chunk requests (chunks 1, 3 and 5 are not adjacent), after the two for the
+header. -/
+def toyH (x : Bytes) : Bytes := (x ++ List.replicate 64 0).take 64
+
+example :
+    let src : Bytes := [1, 2, 3, 4, 5, 6, 7, 8, 9, 10, 11, 12, 13]
+    let archive := createArchive toyH "lib" id ⟨.fixed 3, 8, none, []⟩ src
+    let e : HttpEnv := ⟨honestServe archive, 0, fun _ _ => [.full [1, 2]], [.full [2], .full [], .full [1], .full [], .full []]⟩
+    let r := Clone.run toyH (fun _ b _ => some b) [] e.readAt e.readChunks {} [9, 9] [[4, 5, 6, 0, 0, 0, 10, 11, 12]]
+    r.result = .ok ∧ r.output = src ∧
+    r.requests.flatMap e.wire = [(0, 14), (14, 253), (267, 3), (273, 3), (279, 1)] := by
   decide +kernel
 
 end Bita.Props.C07
